@@ -58,7 +58,7 @@ func (a ConstFloat32) ConvertConstScalar(t ScalarType) ConstScalar {
   case ConstFloat32Type:
     return a
   default:
-    return NewConstScalar(t, a.GetFloat64())
+    return convertConstScalar(a, t)
   }
 }
 /* stringer
